@@ -16,6 +16,7 @@
 
 #include <pistache/common.h>
 #include <pistache/os.h>
+#include <pistache/verif_hooks.h>
 
 namespace Pistache
 {
@@ -221,6 +222,7 @@ namespace Pistache
             // @Note: we're using SC atomics here (exchange will issue a full fence),
             // but I don't think we should bother relaxing them for now
             auto* prev = head.exchange(entry);
+            PV_YIELD("queue.exchanged");
             prev->next = entry;
         }
 
@@ -297,16 +299,19 @@ namespace Pistache
         void push(U&& u)
         {
             Queue<T>::push(std::forward<U>(u));
+            PV_YIELD("queue.linked");
 
             if (isBound())
             {
                 uint64_t val = 1;
                 TRY(write(event_fd, &val, sizeof val));
             }
+            PV_YIELD("queue.notified");
         }
 
         Entry* pop() override
         {
+            PV_YIELD("queue.pop");
             // Drain the notification before looking at the queue: an entry pushed after the
             // look leaves the eventfd readable, so its wake-up can not be lost.
             if (isBound())
@@ -327,6 +332,7 @@ namespace Pistache
                 }
             }
 
+            PV_YIELD("queue.drained");
             return Queue<T>::pop();
         }
 
